@@ -7,6 +7,7 @@ C46 helper lemmas: the warm-start invariant of the `Sched` model as an instance 
 -/
 import CylcModel.SchedFrame
 import CylcModel.SchedAbsStart
+import CylcModel.SchedStart
 
 namespace CylcModel.Sched
 
@@ -59,7 +60,7 @@ theorem frame46 (g : Graph) (P : List Pre → Prop)
     (hsat : ∀ pre a, P pre → P (pre.map (·.satisfy a)))
     (hinit : ∀ (n : String) (t : TaskDefn) (p : Int) (d : InstDef), g.task? n = some t → t.inst? p = some d →
       g.start ≤ p → P d.pre) :
-    Frame g (Q46 g P) (J46 g) where
+    Frame g (fun _ => True) (Q46 g P) (J46 g) where
   qcongr := fun _ _ _ _ _ _ h => h
   jcongr := by
     intro s s' _ hh _ hl h
@@ -71,8 +72,10 @@ theorem frame46 (g : Graph) (P : List Pre → Prop)
   sat := by
     intro s x a h
     exact ⟨h.1, hsat _ _ h.2⟩
+  child := fun _ _ _ _ _ _ => trivial
+  nextp := fun _ _ _ _ _ => trivial
   spawn := by
-    intro s n p z h hz
+    intro s n p z h _ hz
     rw [spawnTask_eq] at hz
     cases hc : spawnCore g s.hist n p with
     | none => simp [hc] at hz
@@ -138,6 +141,214 @@ theorem holds46_run (g : Graph) (P : List Pre → Prop)
       g.start ≤ p → P d.pre)
     (ops : List Op) : ∀ s ∈ run g ops, Holds (Q46 g P) (J46 g) s :=
   let F := frame46 g P hsat hinit
-  F.holds_run (F.holds_spawnOnOutput (absClosed46 g P)) (holds46_empty g P) ops
+  F.holds_run (F.holds_spawnOnOutput (absClosed46 g P)) (holds46_empty g P) (fun _ _ _ _ => trivial) ops
+
+/-! ### start-task starts (`SchedStart.lean`) -/
+
+/-- every state of a run from `s0` satisfies `P` when `s0` does and every step preserves it -/
+theorem runFrom_inv (P : State → Prop) (g : Graph) (s0 : State) (h0 : P s0)
+    (hs : ∀ s op, P s → P (step g s op)) : ∀ ops, ∀ s ∈ runFrom g s0 ops, P s := by
+  intro ops
+  unfold runFrom
+  have key : ∀ (ops : List Op) (acc : List State) (cur : State),
+      (∀ s ∈ acc, P s) → P cur →
+      ∀ s ∈ (ops.foldl (fun (a : List State × State) op =>
+          let s' := step g a.2 op; (a.1 ++ [s'], s')) (acc, cur)).1, P s := by
+    intro ops
+    induction ops with
+    | nil => intro acc cur hacc _ s hm; exact hacc s hm
+    | cons op ops ih =>
+      intro acc cur hacc hcur
+      simp only [List.foldl_cons]
+      apply ih
+      · intro s hm
+        rcases List.mem_append.mp hm with h | h
+        · exact hacc s h
+        · simp at h; subst h; exact hs _ _ hcur
+      · exact hs _ _ hcur
+  exact key ops [s0] s0 (by intro s hm; simp at hm; subst hm; exact h0) h0
+
+section StartTasks
+variable {g : Graph} {A : Int × String → Prop} {Q : State → Proxy → Prop} {J : State → Prop} (F : Frame g A Q J)
+include F
+
+theorem Frame.holds_loadStartTask (hforce : ∀ s x, Q s x → Q s x.forceSatisfy) (s : State) (k : Int × String)
+    (hk : A k) (h : Holds Q J s) : Holds Q J (loadStartTask g s k) := by
+  unfold loadStartTask
+  split
+  · exact h
+  · split
+    · rename_i x hx
+      have hkey := spawnTask_key hx
+      apply F.holds_add h (hforce _ _ (F.spawn s k.2 k.1 x h hk hx))
+      show (spawnTask g s x.name x.pt).isSome = true
+      rw [hkey.1, hkey.2, hx]; rfl
+    · exact h
+
+/-- the start-up state of a start-task start has the invariant -/
+theorem Frame.holds_initTasks (hforce : ∀ s x, Q s x → Q s x.forceSatisfy) (h0 : Holds Q J ({} : State))
+    (starts : List (Int × String)) (hst : ∀ k ∈ starts, A k) : Holds Q J (initTasks g starts) := by
+  unfold initTasks
+  apply foldl_inv_mem (Holds Q J) _ _ _ _ h0
+  intro s k hk h
+  exact F.holds_loadStartTask hforce s k (hst k hk) h
+
+/-- the invariant in every state of every start-task run -/
+theorem Frame.holds_runTasks (hSOO : ∀ (s : State) (p : Int) (n out : String), Holds Q J s →
+      Holds Q J (spawnOnOutput g s p n out))
+    (hforce : ∀ s x, Q s x → Q s x.forceSatisfy) (h0 : Holds Q J ({} : State))
+    (starts : List (Int × String)) (hst : ∀ k ∈ starts, A k) (ops : List Op) :
+    ∀ s ∈ runTasks g starts ops, Holds Q J s :=
+  runFrom_inv (Holds Q J) g _ (F.holds_initTasks hforce h0 starts hst) (F.holds_step hSOO) ops
+
+end StartTasks
+
+theorem forceAll_preStartOk (g : Graph) (pre : List Pre) : PreStartOk g (pre.map Pre.forceAll) := by
+  intro pr hpr e he _
+  obtain ⟨pr0, _, rfl⟩ := List.mem_map.mp hpr
+  unfold Pre.forceAll at he
+  simp only at he
+  obtain ⟨e0, _, rfl⟩ := List.mem_map.mp he
+  rfl
+
+/-- the warm-start invariant in every state of every start-task run -/
+theorem holds46_runTasks (g : Graph) (P : List Pre → Prop)
+    (hsat : ∀ pre a, P pre → P (pre.map (·.satisfy a)))
+    (hforce : ∀ pre, P pre → P (pre.map Pre.forceAll))
+    (hinit : ∀ (n : String) (t : TaskDefn) (p : Int) (d : InstDef), g.task? n = some t → t.inst? p = some d →
+      g.start ≤ p → P d.pre)
+    (starts : List (Int × String)) (ops : List Op) :
+    ∀ s ∈ runTasks g starts ops, Holds (Q46 g P) (J46 g) s :=
+  let F := frame46 g P hsat hinit
+  F.holds_runTasks (F.holds_spawnOnOutput (absClosed46 g P))
+    (fun _ _ hx => ⟨hx.1, hforce _ hx.2⟩) (holds46_empty g P) starts (fun _ _ => trivial) ops
+
+/-! ### what the start tasks lead to -/
+
+/-- the instances the start tasks lead to: graph children of any output, next parentless instances -/
+inductive LeadsTo (g : Graph) (starts : List (Int × String)) : Int × String → Prop
+  | start {k : Int × String} : k ∈ starts → LeadsTo g starts k
+  | child {p : Int} {n out : String} {c : Child} : LeadsTo g starts (p, n) →
+      c ∈ childrenOf g { pt := p, name := n } out → LeadsTo g starts (c.pt, c.name)
+  | next {p np : Int} {n : String} : LeadsTo g starts (p, n) →
+      nextParentless g { pt := p, name := n } = some np → LeadsTo g starts (np, n)
+
+def QCl (g : Graph) (starts : List (Int × String)) (_s : State) (x : Proxy) : Prop :=
+  LeadsTo g starts (x.pt, x.name)
+
+def JCl (g : Graph) (starts : List (Int × String)) (s : State) : Prop :=
+  ∀ l ∈ s.launched, LeadsTo g starts (l.1, l.2.1)
+
+theorem frameCl (g : Graph) (starts : List (Int × String)) :
+    Frame g (LeadsTo g starts) (QCl g starts) (JCl g starts) where
+  qcongr := fun _ _ _ _ _ _ h => h
+  jcongr := by
+    intro s s' _ _ _ hl h
+    unfold JCl; rw [hl]; exact h
+  upd := by
+    intro s x x' h hs
+    unfold QCl at h ⊢
+    rw [hs.1, hs.2.1]; exact h
+  sat := fun _ _ _ h => h
+  spawn := by
+    intro s n p z _ hA hz
+    have hk := spawnTask_key hz
+    unfold QCl
+    rw [hk.1, hk.2]; exact hA
+  child := by
+    intro s x out c hx hc
+    rw [childrenOf_congr g x { pt := x.pt, name := x.name } out rfl rfl] at hc
+    exact LeadsTo.child hx hc
+  nextp := by
+    intro s x np hx hnp
+    rw [nextParentless_congr g x { pt := x.pt, name := x.name } rfl rfl] at hnp
+    exact LeadsTo.next hx hnp
+  add := by
+    intro s z h hz _ _
+    refine ⟨?_, h.2⟩
+    intro x hx
+    rcases List.mem_append.mp hx with hx | hx
+    · exact h.1 x hx
+    · simp at hx; subst hx; exact hz
+  remove := by
+    intro s x gh h _
+    exact ⟨fun y hy => h.1 y (List.mem_filter.mp hy).1, h.2⟩
+  launch := by
+    intro s x n h hx
+    refine ⟨h.1, ?_⟩
+    intro l hl
+    rcases List.mem_append.mp hl with hl | hl
+    · exact h.2 l hl
+    · simp at hl; subst hl; exact hx
+  clear := by
+    intro s h
+    refine ⟨h.1, ?_⟩
+    intro l hl
+    simp [clearOp] at hl
+
+theorem absClosedCl (g : Graph) (starts : List (Int × String)) : AbsClosed (QCl g starts) (JCl g starts) := by
+  intro s a h
+  exact ⟨h.1, h.2⟩
+
+theorem holdsCl_runTasks (g : Graph) (starts : List (Int × String)) (ops : List Op) :
+    ∀ s ∈ runTasks g starts ops, Holds (QCl g starts) (JCl g starts) s :=
+  let F := frameCl g starts
+  F.holds_runTasks (F.holds_spawnOnOutput (absClosedCl g starts)) (fun _ _ hx => hx)
+    ⟨by intro x hx; simp at hx, by intro l hl; simp at hl⟩ starts (fun _ hk => LeadsTo.start hk) ops
+
+/-- every start task that `spawn_task` accepts is in the start-up pool -/
+theorem initTasks_mem (g : Graph) (starts : List (Int × String)) (k : Int × String) (hk : k ∈ starts)
+    (hsp : (spawnTask g {} k.2 k.1).isSome = true) :
+    ∃ x ∈ (initTasks g starts).pool, x.pt = k.1 ∧ x.name = k.2 := by
+  unfold initTasks
+  -- the fold only adds proxies: history and `absDone` stay empty, members stay members
+  have key : ∀ (l : List (Int × String)) (s : State), s.hist = [] → s.absDone = [] →
+      ((∃ x ∈ s.pool, x.pt = k.1 ∧ x.name = k.2) ∨ k ∈ l) →
+      ∃ x ∈ (l.foldl (loadStartTask g) s).pool, x.pt = k.1 ∧ x.name = k.2 := by
+    intro l; induction l with
+    | nil =>
+      intro s _ _ h
+      rcases h with h | h
+      · exact h
+      · simp at h
+    | cons a l ih =>
+      intro s hh ha h
+      simp only [List.foldl_cons]
+      have hstep : (loadStartTask g s a).hist = [] ∧ (loadStartTask g s a).absDone = [] ∧
+          (∀ x ∈ s.pool, x ∈ (loadStartTask g s a).pool) := by
+        unfold loadStartTask
+        split
+        · exact ⟨hh, ha, fun _ hx => hx⟩
+        · split
+          · refine ⟨?_, ?_, fun _ hx => mem_add hx⟩
+            · unfold State.add; split <;> exact hh
+            · unfold State.add; split <;> exact ha
+          · exact ⟨hh, ha, fun _ hx => hx⟩
+      apply ih _ hstep.1 hstep.2.1
+      rcases h with ⟨x, hx, hkx⟩ | h
+      · exact Or.inl ⟨x, hstep.2.2 x hx, hkx⟩
+      · rcases List.mem_cons.mp h with rfl | h
+        · left
+          unfold loadStartTask
+          cases hg : s.get? k.1 k.2 with
+          | some y =>
+            obtain ⟨hy, hp, hn⟩ := get?_mem hg
+            exact ⟨y, hy, hp, hn⟩
+          | none =>
+            have hcongr : spawnTask g s k.2 k.1 = spawnTask g {} k.2 k.1 :=
+              spawnTask_congr (s := {}) (s' := s) g hh ha k.2 k.1
+            cases hs : spawnTask g s k.2 k.1 with
+            | none => rw [hcongr] at hs; rw [hs] at hsp; simp at hsp
+            | some z =>
+              simp only
+              have hkey := spawnTask_key hs
+              refine ⟨z.forceSatisfy, ?_, hkey.1, hkey.2⟩
+              unfold State.add
+              have hg' : s.get? z.forceSatisfy.pt z.forceSatisfy.name = none := by
+                show s.get? z.pt z.name = none
+                rw [hkey.1, hkey.2]; exact hg
+              simp [hg']
+        · exact Or.inr h
+  exact key starts {} rfl rfl (Or.inr hk)
 
 end CylcModel.Sched
